@@ -18,6 +18,7 @@ the invariance for some event, while none of them is exercised by the baseline t
   mechanism 3 "unitarity of conjugated Wigner D-matrices makes the helicity sum rotation invariant":
              small_d_matrix / D_matrix_conj equal the exact Wigner matrices and the delta-index gather hands the
              amplitudes conj D_{la, lb-lc} - E6-wigner, E6-Dconj, E6-gather, shared with C12
+             plus the index-order discipline of the custom contraction that sums the inner helicities (shared with C05)
 Not decided: invariance under a common rotation/boost as such, parity, identical-particle exchange.
 """
 import ast
@@ -42,6 +43,10 @@ def run(repo, chk, tier):
     c11.run(repo, chk, tier, parts=("boost", "helicity", "frame"))
     check_wigner(repo, chk, "quick")
     check_gather(repo, chk)
+    # the helicity sum over the inner indices of a chain is computed by the library's own contraction routine
+    from .c05 import clause_a2
+
+    clause_a2(repo, chk)
 
 
 def nonneg(repo, chk):
